@@ -98,7 +98,6 @@ func verifExercise(data []byte, allowExternal bool) { verifExerciseKnown(data, a
 // violation during that phase only (a violation in any other phase is reported).
 func verifExerciseKnown(data []byte, allowExternal bool, knownValidate, knownInternalize string) {
 	// known findings, identified by call site (see known_findings.json)
-	verifKnownAt("C20-marshal-ref-without-target", "Ref).MarshalYAML")
 	loader := NewLoader()
 	loader.IsExternalRefsAllowed = allowExternal
 	rootLoc := &url.URL{Path: "/r/doc.json"}
